@@ -7,8 +7,10 @@
   carried by no theorem at all (outside the model; established only by the correspondence runs).
 
   Nothing new is proved here: every conjunct of `Cxx_Statement` is the full statement (all binders and hypotheses) of
-  one existing theorem of `Pta.Cxx` / `Pta.E2E` (`Pta.C12` / `Pta.C13` of Props/Tables.lean included), and `theorem cxx`
-  is the tuple of those theorems.  Non-vacuity of the hypotheses of every conjunct is shown by the `example`s next to
+  one existing theorem of `Pta.Cxx` / `Pta.E2E` (`Pta.C12` / `Pta.C13` of Props/Tables.lean and `Pta.C04` of
+  Props/TablesWiring.lean included; the theorems of Props/C07Text, C09Layer, C10Limit, C12Scan, C14Text, C15Text live in
+  the namespaces `Pta.C07`, `Pta.C09`, `Pta.C10`, `Pta.C12`, `Pta.C14`, `Pta.C15`, those of Props/E2EWide in `Pta.E2E`),
+  and `theorem cxx` is the tuple of those theorems.  Non-vacuity of the hypotheses of every conjunct is shown by the `example`s next to
   the original theorem in its Props file.
 
   Reading conventions common to all statements:
@@ -42,6 +44,14 @@ import PtaProofs.Props.C16
 import PtaProofs.Props.C17
 import PtaProofs.Props.E2E
 import PtaProofs.Props.Tables
+import PtaProofs.Props.C07Text
+import PtaProofs.Props.C09Layer
+import PtaProofs.Props.C10Limit
+import PtaProofs.Props.C12Scan
+import PtaProofs.Props.C14Text
+import PtaProofs.Props.C15Text
+import PtaProofs.Props.E2EWide
+import PtaProofs.Props.TablesWiring
 
 namespace Pta.Headline
 
@@ -79,7 +89,11 @@ open PtaSpec
           well-formed architecture satisfies `GraphOf`; conjunct 6 (`Pta.E2E.scan_graph_of_scanArch`): so does the graph
           of a SCANNED directory tree (`treeWFFor`, `mpOK`, `compWF root`, default options, `stmtOK` statements), with
           `Arch.wf` of the specification architecture a consequence; conjunct 7 (`Pta.E2E.scan_rule_total`): (1)
-          composed with the scan for strict rules, including the case where the scan raises.  Needed:
+          composed with the scan for strict rules, including the case where the scan raises; conjunct 8
+          (`Pta.E2E.scan_rule_total_parentFree`, Props/E2EWide.lean): the same composition for the WIDEST oracle domain,
+          `parentFree` rules (identifiers related in any way; `Pta.E2E.strict_parentFree`: contains the strict rules) —
+          the domain hypothesis is needed on scanned trees as well: `Pta.E2E.parentFree_needed_on_scan` (`r/a/m.py`
+          with `from .. import a`, rule "sub modules of r.a should not import r.a").  Needed:
           `Pta.E2E.collision_needs_treeWF` (a file `x.py` next to a directory `x`).
       (4) (implicit in "exactly when") a rule naming a module that does not exist gives no verdict — conjunct 2
           (`Pta.C01.unknown_name_no_verdict`), lookup error (shared with C13).
@@ -96,8 +110,9 @@ open PtaSpec
     Not carried by a theorem (correspondence check only / outside the model):
       * "raises AssertionError" as a Python exception class, and the message (C03) — the model has outcome classes.
       * rules OUTSIDE `parentFree` (e.g. "sub modules of p should_not import p"): no oracle theorem; model and
-        specification are known to differ there (`plain_subOf_counterexample`); the differential run uses the strict
-        oracle only on unrelated names.
+        specification are known to differ there (`plain_subOf_counterexample`, from a directory tree:
+        `Pta.E2E.parentFree_needed_on_scan`); the differential run uses the strict oracle only on unrelated names.
+      * scans with non-default options (level limit: C09; externals included: C10) are not composed with (1) here.
       * regex-specified subjects/objects are not part of `RuleSpec`; they are reduced to names by C11. -/
 def C01_Statement : Prop :=
   -- 1 `Pta.C01.verdict_spec_parentFree`
@@ -147,11 +162,26 @@ def C01_Statement : Prop :=
           r.namesIn (Pta.E2E.scanArch root (toSEntries (isExcluded mt o.exclusions) base entries) mp is) = true →
           r.subjects ≠ [] → (r.anything = true ∨ r.objects ≠ []) → (r.anything = true → r.verb = .shouldNot) →
           verdictOf mt' g (compile r) =
+            VClass.ofBool (verdict (Pta.E2E.scanArch root (toSEntries (isExcluded mt o.exclusions) base entries) mp is) r)) ∧
+  -- 8 `Pta.E2E.scan_rule_total_parentFree`
+  (∀ (mt : Str → Str → Bool) (base root : Str) (mp : List Str) (entries : List Entry) (o : ScanOptions),
+    treeWFFor (isExcluded mt o.exclusions) base mp entries = true → mpOK entries mp = true →
+    compWF root = true →
+    o.excludeExternal = true → o.levelLimit = none → o.externalExclusions.isEmpty = true →
+    (∀ e ∈ entries, ∀ st ∈ e.stmts, stmtOK (toSStmt st) = true) →
+    match scanImports root (toSEntries (isExcluded mt o.exclusions) base entries) mp with
+    | none => generateGraph mt base root mp entries o = .error .lookupError
+    | some is => ∃ g, generateGraph mt base root mp entries o = .ok g ∧
+        ∀ (mt' : Str → Str → Bool) (r : RuleSpec), parentFree r = true →
+          r.namesIn (Pta.E2E.scanArch root (toSEntries (isExcluded mt o.exclusions) base entries) mp is) = true →
+          r.subjects ≠ [] → (r.anything = true ∨ r.objects ≠ []) → (r.anything = true → r.verb = .shouldNot) →
+          verdictOf mt' g (compile r) =
             VClass.ofBool (verdict (Pta.E2E.scanArch root (toSEntries (isExcluded mt o.exclusions) base entries) mp is) r))
 
 theorem c01 : C01_Statement :=
   ⟨@Pta.C01.verdict_spec_parentFree, @Pta.C01.unknown_name_no_verdict, @Pta.C01.rule_chain_state,
-   @Pta.C01.others_literal_agree, @Pta.C09.graph_of_arch, @Pta.E2E.scan_graph_of_scanArch, @Pta.E2E.scan_rule_total⟩
+   @Pta.C01.others_literal_agree, @Pta.C09.graph_of_arch, @Pta.E2E.scan_graph_of_scanArch, @Pta.E2E.scan_rule_total,
+   @Pta.E2E.scan_rule_total_parentFree⟩
 
 end C01
 
@@ -275,7 +305,10 @@ open PtaSpec
           the hypothesis is needed for the same reason as in C01, `Pta.C01.plain_subOf_counterexample`).  The equality
           is of SETS of atoms (imports, and (subject, object) pairs of "does not import" lines); multiplicities and
           order are not claimed (for the `anything` aliases with related subjects the model reports on the retained
-          subjects only, same set).
+          subjects only, same set).  On SCANNED directory trees (`treeWFFor`, default options): conjunct 14
+          (`Pta.E2E.scan_rule_report_parentFree`, Props/E2EWide.lean): the scan succeeds and for every `parentFree` rule
+          over scanned modules that fails, the reported atoms are exactly the atoms of the violating set on the
+          specification architecture of the tree.
       (3) "Every 'does not import' / 'is not imported by' line names exactly one subject for which the required import
           is missing, together with exactly the objects it is missing for" — conjuncts 4, 5
           (`Pta.C03.missing_lines_are_missing`, `…missing_any_lines_are_missing`): a plain line names one rule subject
@@ -385,13 +418,30 @@ def C03_Statement : Prop :=
       (∃ any s objsM d, line = renderLine (.miss any s objsM d) ∧ s ∈ subs.map Filter.toMod ∧ objsM ≠ [] ∧
         ∀ o ∈ objsM, o ∈ objs.map Filter.toMod)) ∧
   -- 13 `Pta.C03.parse_render`
-  (∀ (x : Item), x.parsable = true → parseLine (renderLine x) = some x)
+  (∀ (x : Item), x.parsable = true → parseLine (renderLine x) = some x) ∧
+  -- 14 `Pta.E2E.scan_rule_report_parentFree`
+  (∀ (mt : Str → Str → Bool) (base root : Str) (mp : List Str) (entries : List Entry) (o : ScanOptions),
+    treeWFFor (isExcluded mt o.exclusions) base mp entries = true → mpOK entries mp = true →
+    compWF root = true →
+    o.excludeExternal = true → o.levelLimit = none → o.externalExclusions.isEmpty = true →
+    (∀ e ∈ entries, ∀ st ∈ e.stmts, stmtOK (toSStmt st) = true) →
+    ∀ (is : List (Name × Name)),
+    scanImports root (toSEntries (isExcluded mt o.exclusions) base entries) mp = some is →
+    ∃ g, generateGraph mt base root mp entries o = .ok g ∧
+      ∀ (mt' : Str → Str → Bool) (r : RuleSpec), parentFree r = true →
+        r.namesIn (Pta.E2E.scanArch root (toSEntries (isExcluded mt o.exclusions) base entries) mp is) = true →
+        r.subjects ≠ [] → (r.anything = true ∨ r.objects ≠ []) → (r.anything = true → r.verb = .shouldNot) →
+        ∀ items, (assertApplies mt' (compile r) g).2 = .fail items →
+          ∀ x, x ∈ items.flatMap Item.atoms ↔
+            x ∈ (violating (Pta.E2E.scanArch root (toSEntries (isExcluded mt o.exclusions) base entries) mp is) r).flatMap
+              SItem.atoms)
 
 theorem c03 : C03_Statement :=
   ⟨@Pta.C01.report_spec_parentFree, @Pta.C03.reported_imports_are_imports, @Pta.C03.reported_imports_touch_subject,
    @Pta.C03.missing_lines_are_missing, @Pta.C03.missing_any_lines_are_missing, @Pta.C03.one_missing_line_per_subject,
    @Pta.C03.missing_lines_complete, @Pta.C03.missing_any_lines_complete, @Pta.C03.pair_query_empty_iff,
-   @Pta.C03.line_of_item, @Pta.C03.assert_text_eq, @Pta.C03.text_lines_shape, @Pta.C03.parse_render⟩
+   @Pta.C03.line_of_item, @Pta.C03.assert_text_eq, @Pta.C03.text_lines_shape, @Pta.C03.parse_render,
+   @Pta.E2E.scan_rule_report_parentFree⟩
 
 end C03
 
@@ -442,10 +492,35 @@ open PtaSpec
           (`Pta.C04.parent_relative_equiv`): … which is the restriction of the whole-root scan of the fully qualified
           tree.  Extra hypothesis `plain` (the stripped name is not itself a module while the name as written is not) —
           needed: `Pta.C04.plain_needed`.
+      (6) "named by its dotted path starting with root_path's own directory name" / the entry point as called —
+          conjunct 12 (`Pta.C04.path_entry_eq_generateGraph`): `get_evaluable_architecture(root_path, module_path, …)`
+          (`getEvaluableArchitecture`, PtaModel/Scan.lean; the file system is the parameter `fs`) IS `generateGraph` on
+          what `entryPaths` derives from the two path strings, whenever the options pass `entryOptionsError`; so every
+          conjunct above is about the entry point.  Conjunct 13 (`Pta.C04.entry_module_path_str`): `base` is
+          `str(root_as_path)`, `root` its last component (`root_path`'s own directory name), and `str(module_as_path)`
+          is the `pathStr base mp` the walk uses — for a root path with at least one component (for `/`, `//`, `""` the
+          model's `pathStr` differs from pathlib's string: example in Props/C04.lean).
+      (7) "and the module-object entry point builds the same architecture as the path entry point" — conjunct 11
+          (`Pta.C04.dirname_spec`): `os.path.dirname(d + "/" + f) = d` for non-empty `d` not ending in `/` and `f`
+          without `/` (the two cases left out: `Pta.C04.dirname_no_slash`, `dirname_root_file`); conjunct 14
+          (`Pta.C04.module_object_entry_eq_path_entry`): for PACKAGE module objects (`__file__ = dir/__init__.py`)
+          `get_evaluable_architecture_for_module_objects` returns literally (graph or error, same six options) what the
+          path entry point returns for the two directories; conjunct 15 (`Pta.C04.module_object_plain_module`): for a
+          PLAIN module object `dir/x.py` the scanned directory is `dir`, the parent package — the module-object entry
+          point cannot scan a single file (so a plain module and the package `__init__.py` next to it give the same
+          result: `Pta.C04.module_object_plain_eq_package`); conjunct 16 (`Pta.C04.module_object_modules_exact`): the
+          transfer spelled out once — the nodes of the graph the module-object entry point returns are exactly the
+          rendered `scanModules` of the specification.  That the six options reach `generate_graph` unchanged from both
+          entry points, with the same defaults, is conjunct 17 (`Pta.C04.generated_wiring_agree`,
+          Props/TablesWiring.lean): the option data flow extracted from pytestarch.py on every run
+          (Generated/Wiring.lean) equals the plumbing the scan model assumes (PtaModel/Wiring.lean).
     Not carried by a theorem (correspondence check only / outside the model):
-      * "the module-object entry point builds the same architecture as the path entry point":
-        `get_evaluable_architecture_for_module_objects` (`dirname(module.__file__)` delegation) is NOT modelled.
-      * `os.walk` / `pathlib` producing `entries`, and symlinks: the listing is a parameter.
+      * of the module-object entry point: that a module object is its `__file__` string (`ModuleObj.file`); module
+        objects without `__file__` (namespace packages, built-ins) are not modelled; `__file__` values outside the
+        hypotheses of conjuncts 14 / 15 (directory empty or ending in `/`) are covered by evaluation of `dirname` only.
+      * that Python's `posixpath.dirname` / `pathlib.PurePosixPath` behave as the transcriptions `dirname`, `parsePath`,
+        `PPath.str`, `PPath.name`, `PPath.relativeTo` (POSIX paths only; `..` is kept, nothing is resolved).
+      * `os.walk` / `pathlib` producing `entries` (`fs base`), and symlinks: the listing is a parameter.
       * trees outside `treeWFFor` (dotted directory names, `x.py` next to `x/` inside the scanned part): the naming clauses
         are not claimed there (see `Pta.C02.collision_counterexample`). -/
 def C04_Statement : Prop :=
@@ -543,12 +618,53 @@ def C04_Statement : Prop :=
         (Pta.C04.exclOf mt o (pathStr base mp) = false ∧ ∃ k, 0 < k ∧ k ≤ mp.length ∧ s = render ((root :: mp).take k))) ∧
       (∀ u v, (u, v) ∈ g'.importPairs ↔
         (u, v) ∈ g0.importPairs ∧ isInternal u (internalPrefix root mp) = true ∧
-          isInternal v (internalPrefix root mp) = true))
+          isInternal v (internalPrefix root mp) = true)) ∧
+  -- 11 `Pta.C04.dirname_spec`
+  (∀ (d f : Str), d ≠ [] → d.getLast? ≠ some '/' → '/' ∉ f → dirname (d ++ '/' :: f) = d) ∧
+  -- 12 `Pta.C04.path_entry_eq_generateGraph`
+  (∀ (mt : Str → Str → Bool) (fs : Str → List Entry) (rootPath modulePath : Str) (a : EntryArgs) (base root : Str)
+    (mp : List Str) (o : ScanOptions), entryOptionsError (a.flags true) = none →
+    entryPaths rootPath modulePath = .ok (base, root, mp) → a.scanOptions = some o →
+    getEvaluableArchitecture mt fs rootPath modulePath a =
+      (generateGraph mt base root mp (fs base) o).mapError EntryErr.kind) ∧
+  -- 13 `Pta.C04.entry_module_path_str`
+  (∀ (rootPath modulePath base root : Str) (mp : List Str),
+    entryPaths rootPath modulePath = .ok (base, root, mp) → (parsePath rootPath).parts ≠ [] →
+    (parsePath modulePath).str = pathStr base mp ∧ base = (parsePath rootPath).str ∧ root = (parsePath rootPath).name) ∧
+  -- 14 `Pta.C04.module_object_entry_eq_path_entry`
+  (∀ (mt : Str → Str → Bool) (fs : Str → List Entry) (rdir mdir : Str) (a : EntryArgs),
+    rdir ≠ [] → rdir.getLast? ≠ some '/' → mdir ≠ [] → mdir.getLast? ≠ some '/' →
+    scanForModuleObjects mt fs ⟨rdir ++ "/__init__.py".toList⟩ ⟨mdir ++ "/__init__.py".toList⟩ a =
+      getEvaluableArchitecture mt fs rdir mdir a) ∧
+  -- 15 `Pta.C04.module_object_plain_module`
+  (∀ (mt : Str → Str → Bool) (fs : Str → List Entry) (rdir dir rfile x : Str) (a : EntryArgs),
+    rdir ≠ [] → rdir.getLast? ≠ some '/' → dir ≠ [] → dir.getLast? ≠ some '/' → '/' ∉ rfile → '/' ∉ x →
+    dirname (dir ++ '/' :: x) = dir ∧
+    scanForModuleObjects mt fs ⟨rdir ++ '/' :: rfile⟩ ⟨dir ++ '/' :: x⟩ a = getEvaluableArchitecture mt fs rdir dir a) ∧
+  -- 16 `Pta.C04.module_object_modules_exact`
+  (∀ (mt : Str → Str → Bool) (fs : Str → List Entry) (rdir mdir : Str) (a : EntryArgs),
+    rdir ≠ [] → rdir.getLast? ≠ some '/' → mdir ≠ [] → mdir.getLast? ≠ some '/' →
+    ∀ (base root : Str) (mp : List Str) (o : ScanOptions), entryOptionsError (a.flags true) = none →
+    entryPaths rdir mdir = .ok (base, root, mp) → a.scanOptions = some o →
+    treeWFFor (Pta.C04.exclOf mt o) base mp (fs base) = true → mpOK (fs base) mp = true → compWF root = true →
+    o.excludeExternal = true → o.levelLimit = none → ∀ (g : PGraph Str),
+    scanForModuleObjects mt fs ⟨rdir ++ "/__init__.py".toList⟩ ⟨mdir ++ "/__init__.py".toList⟩ a = .ok g → ∀ (s : Str),
+    s ∈ g.nodes ↔ ∃ n ∈ scanModules root (toSEntries (Pta.C04.exclOf mt o) base (fs base)) mp, s = render n) ∧
+  -- 17 `Pta.C04.generated_wiring_agree`
+  (Generated.entryParams = Pta.Wiring.entryParams ∧
+    Generated.entryDefaults = Pta.Wiring.defaults ∧
+    Generated.moduleObjectsDefaults = Pta.Wiring.defaults ∧
+    Generated.defaultExclusions = Pta.Wiring.defaultExclusions ∧
+    Generated.moduleObjectsFlow = Pta.Wiring.moduleObjectsFlow ∧
+    Generated.generateGraphFlow = Pta.Wiring.generateGraphFlow)
 
 theorem c04 : C04_Statement :=
   ⟨@Pta.C04.walk_modules_exact, @Pta.C04.walk_modules_nodup, @Pta.C04.graph_modules_explicit,
    @Pta.C04.hierarchy_exact, @Pta.C04.submodules_exact, @Pta.C04.scan_wf, @Pta.C04.subscan_modules,
-   @Pta.C04.subscan_graph, @Pta.C04.parent_relative_graph, @Pta.C04.parent_relative_equiv⟩
+   @Pta.C04.subscan_graph, @Pta.C04.parent_relative_graph, @Pta.C04.parent_relative_equiv,
+   @Pta.C04.dirname_spec, @Pta.C04.path_entry_eq_generateGraph, @Pta.C04.entry_module_path_str,
+   @Pta.C04.module_object_entry_eq_path_entry, @Pta.C04.module_object_plain_module,
+   @Pta.C04.module_object_modules_exact, Pta.C04.generated_wiring_agree⟩
 
 end C04
 
@@ -824,16 +940,31 @@ open PtaSpec
           check is that of the rules generated from `parsedOf (specDiagram d)` up to `sameItems` (same lines as sets, a
           "does not import" line listing its objects in any order — literal equality is not guaranteed:
           `Pta.C07.report_lists_objects_in_dict_order`).
+          The aggregated message as TEXT (Props/C07Text.lean; `applyAllText` / `diagramAssertText`,
+          PtaModel/DiagramText.lean, transcribe `MultipleRuleApplier.assert_applies`:
+          `AssertionError("\n".join(error_messages))`) — conjunct 12 (`Pta.C07.aggregated_text_eq`): for every graph
+          and every list of rule objects the outcome is the error `k` iff some rule raises `k` and no rule before it
+          raises; if no rule raises: pass iff every rule passes, and `AssertionError(text)` iff some rule fails, `text`
+          being the '\n'-join, in rule order, of the messages of ALL failing rules — none skipped, none added;
+          conjunct 13 (`Pta.C07.aggregated_text_items`): same verdict class as the item-valued `applyAll`; the text is
+          the '\n'-join of the lines `aggLines`, which are, rule by rule, the rendered report items (C03) of the failing
+          rules, as a set the renderings of `applyAll`'s items, and literally `splitLines text` when no line contains a
+          newline; conjunct 14 (`Pta.C07.diagram_text_is_aggregation`): `DiagramRule.assert_applies` with text: no file
+          — ImproperlyConfigured, a file that does not parse — the parser's error, otherwise this aggregation over the
+          generated rules (base module prefixed); same class as `diagramAssert`.
       (4) "with_base_module(p) behaves exactly like writing every component as p.name" — conjunct 5
           (`Pta.C07.base_module`): the rules generated after `with_base_module(q)` are the rules generated without it with
           every name `m` replaced by `q.m`, for EVERY parse result; conjunct 6 (`Pta.C07.base_module_diagram`): … which is
           the parse result of the diagram drawn with `q.name`; conjunct 9 (`Pta.C07.diagram_file_base_conforms_iff`): the
           file check with base module passes iff the imports conform to `prefixDiagram q (specDiagram d)`, never errs.
     Not carried by a theorem (correspondence check only / outside the model):
-      * the aggregated message TEXT of `MultipleRuleApplier` (joining the messages of the failing rules): the model
-        aggregates report items; the text of each rule is C03.
+      * that `str(AssertionError)` of `MultipleRuleApplier` is `applyAllText`'s text and that `e.args[0]` of a failing
+        rule is `messageText` of its lines: transcriptions, checked by the correspondence runs (the aggregation of the
+        texts itself IS carried now, conjuncts 12–14; the text of each single rule is C03).
+      * the text is in RULE order, not globally sorted or de-duplicated (per-rule blocks; see C15 conjuncts 15–17 for
+        what that means under permuted diagram lines).
       * diagrams outside `diagramDomain` (related components, components missing from the architecture — the latter
-        raise a lookup error by C13, not stated here). -/
+        raise a lookup error by C13 / `Pta.C15.generated_rules_raise_lookup_only`, not stated here). -/
 def C07_Statement : Prop :=
   -- 1 `Pta.C07.conforms_iff_of_graph`
   (∀ (mt : Str → Str → Bool) (a : Arch) (g : PGraph Str), GraphOf a g → ∀ (d : Diagram)
@@ -903,13 +1034,41 @@ def C07_Statement : Prop :=
         diagramDomain (Pta.E2E.scanArch root (toSEntries (isExcluded mt o.exclusions) base entries) mp is) (specDiagram d) = true →
         (diagramAssert mt' (some (diagramText noise1 d noise2)) none so g = .pass ↔
           conforms (Pta.E2E.scanArch root (toSEntries (isExcluded mt o.exclusions) base entries) mp is) (specDiagram d) so = true) ∧
-        (∀ k, diagramAssert mt' (some (diagramText noise1 d noise2)) none so g ≠ .err k))
+        (∀ k, diagramAssert mt' (some (diagramText noise1 d noise2)) none so g ≠ .err k)) ∧
+  -- 12 `Pta.C07.aggregated_text_eq`
+  (∀ (mt : Str → Str → Bool) (g : PGraph Str) (rs : List RuleState),
+    (∀ k, applyAllText mt g rs = .err k ↔
+      ∃ pre r post, rs = pre ++ r :: post ∧ (∀ r' ∈ pre, ∀ k', (assertAppliesText mt r' g).2 ≠ .err k') ∧
+        (assertAppliesText mt r g).2 = .err k) ∧
+    ((∀ r ∈ rs, ∀ k, (assertAppliesText mt r g).2 ≠ .err k) →
+      (applyAllText mt g rs = .pass ↔ ∀ r ∈ rs, (assertAppliesText mt r g).2 = .pass) ∧
+      (∀ text, applyAllText mt g rs = .fail text ↔
+        (∃ r ∈ rs, ∃ lines, (assertAppliesText mt r g).2 = .fail lines) ∧
+        text = joinWith ['\n'] ((rs.filter fun r => (assertAppliesText mt r g).2.isFail).map fun r =>
+          messageText (assertAppliesText mt r g).2.lines)))) ∧
+  -- 13 `Pta.C07.aggregated_text_items`
+  (∀ (mt : Str → Str → Bool) (g : PGraph Str) (rs : List RuleState),
+    (applyAllText mt g rs).cls = (applyAll mt g rs).cls ∧
+    ∀ text, applyAllText mt g rs = .fail text →
+      text = messageText (aggLines mt g rs) ∧ aggLines mt g rs ≠ [] ∧
+      aggLines mt g rs = ((rs.filter fun r => (assertApplies mt r g).2.isFail).flatMap fun r =>
+        renderItems (assertApplies mt r g).2.items) ∧
+      (∀ line, line ∈ aggLines mt g rs ↔ ∃ x ∈ (applyAll mt g rs).items, renderItem x = line) ∧
+      ((∀ l ∈ aggLines mt g rs, '\n' ∉ l) → splitLines text = aggLines mt g rs)) ∧
+  -- 14 `Pta.C07.diagram_text_is_aggregation`
+  (∀ (mt : Str → Str → Bool) (g : PGraph Str) (base : Option Str) (so : Bool),
+    diagramAssertText mt none base so g = .err .improperlyConfigured ∧
+    (∀ c k, pumlParse c = .error k → diagramAssertText mt (some c) base so g = .err k) ∧
+    (∀ c p, pumlParse c = .ok p →
+      diagramAssertText mt (some c) base so g = applyAllText mt g (diagramRules so (prefixParsed p base))) ∧
+    (∀ content, (diagramAssertText mt content base so g).cls = (diagramAssert mt content base so g).cls))
 
 theorem c07 : C07_Statement :=
   ⟨@Pta.C07.conforms_iff_of_graph, @Pta.C07.fails_iff_not_conforms, @Pta.C07.aggregates_all,
    @Pta.C07.first_error_propagates, @Pta.C07.base_module, @Pta.C07.base_module_diagram,
    @Pta.C07.diagram_file_conforms_iff, @Pta.C07.diagram_file_never_errs, @Pta.C07.diagram_file_base_conforms_iff,
-   @Pta.C07.diagram_file_report, @Pta.E2E.scan_diagram_file_conforms⟩
+   @Pta.C07.diagram_file_report, @Pta.E2E.scan_diagram_file_conforms,
+   @Pta.C07.aggregated_text_eq, @Pta.C07.aggregated_text_items, @Pta.C07.diagram_text_is_aggregation⟩
 
 end C07
 
@@ -952,6 +1111,13 @@ open PtaSpec
           interpreter `matchEmitted` of the emitted regex class: escaped literal with optional `.*` ends and `$`) always
           succeeds with `globSpec p s`; conjunct 2 (`Pta.C08.glob_meaning`): `globSpec` IS the independent meaning
           `PtaSpec.globMeaning` (PtaSpec/GlobSem.lean), for ALL patterns and subjects, `"*"`, `"**"`, `""` included.
+      (5) "the scan without that pattern" EXISTS (repaired defect F-C08a, fix c0bb7ac) — the reference scan of (2), (3)
+          for a single pattern is the call with `exclusions=()` and no `regex_exclusions`.  Conjunct 10
+          (`Pta.C08.no_type_error`): the path entry point `getEvaluableArchitecture` never ends in the `TypeError`
+          branch, whatever the options, paths and file system; conjunct 11 (`Pta.C08.no_patterns_scan`): with
+          `exclusions = []` and `regexExclusions = none` the scan options carry the EMPTY regex list, which excludes no
+          path.  Before the repair the pattern value handed to the file filter was `None`
+          (`Pta.C08.no_patterns_before_repair`: `filePatternsBeforeRepair = none`, now `some (.regexes [])`).
     Not carried by a theorem (correspondence check only / outside the model):
       * "regex_exclusions are applied as regular expressions anchored at the start of the path": `re.match` is the
         uninterpreted parameter `mt` (`isExcluded mt (.regexes rs) s = rs.any (mt · s)`); anchoring is a property of
@@ -1012,12 +1178,20 @@ def C08_Statement : Prop :=
     moduleName root e.rel ∈ (walkFrom excl base root mp entries).allModules) ∧
   -- 9 `Pta.C08.more_patterns_exclude_more`
   (∀ (mt : Str → Str → Bool) (a b c : Patterns), a.add b = some c → ∀ (s : Str),
-    isExcluded mt c s = (isExcluded mt a s || isExcluded mt b s))
+    isExcluded mt c s = (isExcluded mt a s || isExcluded mt b s)) ∧
+  -- 10 `Pta.C08.no_type_error`
+  (∀ (mt : Str → Str → Bool) (fs : Str → List Entry) (rootPath modulePath : Str) (a : EntryArgs),
+    getEvaluableArchitecture mt fs rootPath modulePath a ≠ .error .typeError) ∧
+  -- 11 `Pta.C08.no_patterns_scan`
+  (∀ (mt : Str → Str → Bool) (a : EntryArgs), a.exclusions = [] → a.regexExclusions = none →
+    (a.scanOptions.map (·.exclusions)) = some (.regexes []) ∧
+    ∀ s, isExcluded mt (.regexes []) s = false)
 
 theorem c08 : C08_Statement :=
   ⟨@Pta.C08.glob_spec, @Pta.C08.glob_meaning, @Pta.C08.exclusion_exact_modules, @Pta.C08.exclusion_exact_files,
    @Pta.C08.exclusion_exact_modules_opts, @Pta.C08.exclusion_exact_imports, @Pta.C08.excluded_contributes_no_module,
-   @Pta.C08.unexcluded_module_remains, @Pta.C08.more_patterns_exclude_more⟩
+   @Pta.C08.unexcluded_module_remains, @Pta.C08.more_patterns_exclude_more,
+   @Pta.C08.no_type_error, @Pta.C08.no_patterns_scan⟩
 
 end C08
 
@@ -1063,9 +1237,33 @@ open PtaSpec
           conjunct 13 (`Pta.E2E.scan_rule_verdict_limit`, bound `ruleAbove (k + |mp|)`).  Strictness is NEEDED: for
           related identifiers the verdict is not preserved (`Pta.C09.verdict_not_preserved_related`) — so "every rule"
           of the English text is false; the theorem is about strict rules.
+      (4) "every rule …" for LAYER rules (Props/C09Layer.lean) — conjunct 14 (`Pta.C09.layer_verdict_preserved`): for a
+          well-formed `a`, a layer rule in the domain of C05 (`layerDomain' a ls r`, `ls` = `larch` resolved on the FULL
+          graph; name and regex layers) and a limit `k` such that every listed module of every layer THE RULE MENTIONS
+          has at most `k + 1` components (`ruleLayersAbove k ls r`; unmentioned layers may lie deeper:
+          `Pta.C09.unmentioned_deep_layers`), `LayerRule.assert_applies` has the same verdict class on
+          `archGraphLim a (some k)` and on `archGraph a`; conjunct 15 (`Pta.C09.layer_verdict_lim_spec`): namely the
+          documented layer semantics on the FULL architecture, never an error.  Nothing is assumed about the flattened
+          graph (a regex layer may resolve there in another order: `Pta.C09.regex_resolution_order_differs`).  The
+          depth condition is NEEDED: `Pta.C09.layer_verdict_not_preserved_deep` (a listed module of a mentioned layer
+          below the limit is no node of the flattened graph; the rule raises).  Specification side:
+          `Pta.C09.layer_spec_verdict_preserved`, `layer_domain_transfers`.  On SCANNED trees: conjunct 19
+          (`Pta.C09.scan_layer_verdict_preserved`, bound `ruleLayersAbove (k + |mp|)`, layers resolved on the unlimited
+          scan graph).
+      (5) "every rule …" for DIAGRAM rules — conjunct 16 (`Pta.C09.diagram_verdict_preserved`) and conjunct 17
+          (`Pta.C09.diagram_verdict_lim_spec`): for `diagramDomain a d` with every component of at most `k + 1`
+          components (`diagramAbove k d`) the generated rules applied by `MultipleRuleApplier` have the same outcome
+          class on the flattened and on the full graph: pass iff the imports of the FULL architecture conform, fail
+          otherwise, never an error; conjunct 18 (`Pta.C09.diagram_file_verdict_preserved`): from the diagram FILE
+          (C06 ∘ C07 ∘ C09); on SCANNED trees conjunct 20 (`Pta.C09.scan_diagram_verdict_preserved`).  Needed:
+          `Pta.C09.diagram_verdict_not_preserved_deep` (limit 0: the components are no nodes; lookup error).
+          Specification side: `Pta.C09.conforms_preserved`, `diagram_domain_transfers`.
     Not carried by a theorem (correspondence check only / outside the model):
-      * verdict preservation for layer rules / diagram rules above the limit (only `Pta.E2E.scan_layer_verdict_limit`:
-        the layer semantics on the QUOTIENT architecture) and for non-strict `parentFree` rules. -/
+      * verdict preservation for non-strict `parentFree` MODULE rules (false in general for related identifiers:
+        `Pta.C09.verdict_not_preserved_related`; no theorem delimits the non-strict rules for which it holds).
+      * for layer / diagram rules: only the verdict CLASS is preserved (conjuncts 14–20); the report / message on the
+        flattened graph names flattened modules and is not related to the full one by a theorem; `with_base_module`
+        under a limit is not stated. -/
 def C09_Statement : Prop :=
   -- 1 `Pta.C09.quotient`
   (∀ (a : Arch), a.wf = true → ∀ (lim : Option Nat), QuotientOf a lim (archGraphLim a lim)) ∧
@@ -1157,14 +1355,88 @@ def C09_Statement : Prop :=
         ruleAbove (k + mp.length) r = true →
         verdictOf mt' g (compile r) = verdictOf mt' g0 (compile r) ∧
         verdictOf mt' g (compile r) =
-          VClass.ofBool (verdict (Pta.E2E.scanArch root (toSEntries (isExcluded mt o.exclusions) base entries) mp is) r))
+          VClass.ofBool (verdict (Pta.E2E.scanArch root (toSEntries (isExcluded mt o.exclusions) base entries) mp is) r)) ∧
+  -- 14 `Pta.C09.layer_verdict_preserved`
+  (∀ (mt : Str → Str → Bool) (a : Arch), a.wf = true → ∀ (k : Nat)
+    (ls : Layers) (r : LRuleSpec), layerDomain' a ls r = true →
+    (r.anything = true → r.verb = .shouldNot) → ruleLayersAbove k ls r = true →
+    ∀ (larch : LArch), resolves mt (archGraph a).nodes larch ls = true →
+    (assertAppliesLayer mt (compileLayerRule larch r) (archGraphLim a (some k))).cls =
+      (assertAppliesLayer mt (compileLayerRule larch r) (archGraph a)).cls) ∧
+  -- 15 `Pta.C09.layer_verdict_lim_spec`
+  (∀ (mt : Str → Str → Bool) (a : Arch), a.wf = true → ∀ (k : Nat)
+    (ls : Layers) (r : LRuleSpec), layerDomain' a ls r = true →
+    (r.anything = true → r.verb = .shouldNot) → ruleLayersAbove k ls r = true →
+    ∀ (larch : LArch), resolves mt (archGraph a).nodes larch ls = true →
+    (assertAppliesLayer mt (compileLayerRule larch r) (archGraphLim a (some k))).cls =
+      VClass.ofBool (layerVerdict a ls r)) ∧
+  -- 16 `Pta.C09.diagram_verdict_preserved`
+  (∀ (mt : Str → Str → Bool) (a : Arch) (k : Nat) (d : Diagram) (so : Bool),
+    diagramDomain a d = true → diagramAbove k d = true →
+    (applyAll mt (archGraphLim a (some k)) (diagramRules so (parsedOf d))).cls =
+      (applyAll mt (archGraph a) (diagramRules so (parsedOf d))).cls) ∧
+  -- 17 `Pta.C09.diagram_verdict_lim_spec`
+  (∀ (mt : Str → Str → Bool) (a : Arch) (k : Nat) (d : Diagram) (so : Bool),
+    diagramDomain a d = true → diagramAbove k d = true →
+    (applyAll mt (archGraphLim a (some k)) (diagramRules so (parsedOf d))).cls = VClass.ofBool (conforms a d so)) ∧
+  -- 18 `Pta.C09.diagram_file_verdict_preserved`
+  (∀ (mt : Str → Str → Bool) (a : Arch) (k : Nat) (noise1 noise2 : Str)
+    (d : List DLine), diagramWF d = true → isInfix "@enduml".toList noise2 = false → ∀ (so : Bool),
+    diagramDomain a (specDiagram d) = true → diagramAbove k (specDiagram d) = true →
+    (diagramAssert mt (some (diagramText noise1 d noise2)) none so (archGraphLim a (some k))).cls =
+      (diagramAssert mt (some (diagramText noise1 d noise2)) none so (archGraph a)).cls ∧
+    (diagramAssert mt (some (diagramText noise1 d noise2)) none so (archGraphLim a (some k))).cls =
+      VClass.ofBool (conforms a (specDiagram d) so)) ∧
+  -- 19 `Pta.C09.scan_layer_verdict_preserved`
+  (∀ (mt : Str → Str → Bool) (base root : Str) (mp : List Str) (entries : List Entry) (o : ScanOptions) (k : Nat),
+    treeWFFor (isExcluded mt o.exclusions) base mp entries = true → mpOK entries mp = true →
+    compWF root = true →
+    o.excludeExternal = true → o.levelLimit = some k → o.externalExclusions.isEmpty = true →
+    (∀ e ∈ entries, ∀ st ∈ e.stmts, stmtOK (toSStmt st) = true) →
+    ∀ (is : List (Name × Name)),
+    scanImports root (toSEntries (isExcluded mt o.exclusions) base entries) mp = some is →
+    ∃ g g0, generateGraph mt base root mp entries o = .ok g ∧
+      generateGraph mt base root mp entries o.noLimit = .ok g0 ∧
+      ∀ (mt' : Str → Str → Bool) (ls : Layers) (r : LRuleSpec) (larch : LArch),
+        layerDomain' (Pta.E2E.scanArch root (toSEntries (isExcluded mt o.exclusions) base entries) mp is) ls r = true →
+        (r.anything = true → r.verb = .shouldNot) →
+        ruleLayersAbove (k + mp.length) ls r = true →
+        resolves mt' g0.nodes larch ls = true →
+        (assertAppliesLayer mt' (compileLayerRule larch r) g).cls =
+          (assertAppliesLayer mt' (compileLayerRule larch r) g0).cls ∧
+        (assertAppliesLayer mt' (compileLayerRule larch r) g).cls =
+          VClass.ofBool (layerVerdict
+            (Pta.E2E.scanArch root (toSEntries (isExcluded mt o.exclusions) base entries) mp is) ls r)) ∧
+  -- 20 `Pta.C09.scan_diagram_verdict_preserved`
+  (∀ (mt : Str → Str → Bool) (base root : Str) (mp : List Str) (entries : List Entry) (o : ScanOptions) (k : Nat),
+    treeWFFor (isExcluded mt o.exclusions) base mp entries = true → mpOK entries mp = true →
+    compWF root = true →
+    o.excludeExternal = true → o.levelLimit = some k → o.externalExclusions.isEmpty = true →
+    (∀ e ∈ entries, ∀ st ∈ e.stmts, stmtOK (toSStmt st) = true) →
+    ∀ (is : List (Name × Name)),
+    scanImports root (toSEntries (isExcluded mt o.exclusions) base entries) mp = some is →
+    ∃ g g0, generateGraph mt base root mp entries o = .ok g ∧
+      generateGraph mt base root mp entries o.noLimit = .ok g0 ∧
+      ∀ (mt' : Str → Str → Bool) (D : Diagram) (so : Bool),
+        diagramDomain (Pta.E2E.scanArch root (toSEntries (isExcluded mt o.exclusions) base entries) mp is) D = true →
+        diagramAbove (k + mp.length) D = true →
+        (applyAll mt' g (diagramRules so (parsedOf D))).cls = (applyAll mt' g0 (diagramRules so (parsedOf D))).cls ∧
+        (applyAll mt' g (diagramRules so (parsedOf D))).cls =
+          VClass.ofBool (conforms
+            (Pta.E2E.scanArch root (toSEntries (isExcluded mt o.exclusions) base entries) mp is) D so))
 
 theorem c09 : C09_Statement :=
   ⟨fun a hwf lim => Pta.C09.quotient a hwf lim, fun a hwf lim => Pta.C09.graph_of_quotient_arch a hwf lim,
    fun a hwf lim => Pta.C09.quotient_arch_wf a hwf lim, @Pta.C09.verdict_preserved, @Pta.C09.verdict_lim_spec,
    @Pta.C09.scan_error_indep, @Pta.C09.scan_quotient_nodes, @Pta.C09.scan_quotient_hier,
    @Pta.C09.scan_quotient_imports, @Pta.C09.scan_quotient_imports_clean, @Pta.C09.flatten_is_truncation,
-   @Pta.E2E.scan_quotient_of_scanArch, @Pta.E2E.scan_rule_verdict_limit⟩
+   @Pta.E2E.scan_quotient_of_scanArch, @Pta.E2E.scan_rule_verdict_limit,
+   @Pta.C09.layer_verdict_preserved, @Pta.C09.layer_verdict_lim_spec, @Pta.C09.diagram_verdict_preserved,
+   @Pta.C09.diagram_verdict_lim_spec, @Pta.C09.diagram_file_verdict_preserved,
+   fun mt base root mp entries o k hwf hmp hroot hxx hlim hext hst is his =>
+     Pta.C09.scan_layer_verdict_preserved mt base root mp entries o k hwf hmp hroot hxx hlim hext hst is his,
+   fun mt base root mp entries o k hwf hmp hroot hxx hlim hext hst is his =>
+     Pta.C09.scan_diagram_verdict_preserved mt base root mp entries o k hwf hmp hroot hxx hlim hext hst is his⟩
 
 end C09
 
@@ -1198,6 +1470,22 @@ section C10
           whose name contains the root path string); not retained → the importee is not a node and no edge touches it,
           provided it is not itself a parsed module or a parent of one.  Conjunct 5
           (`Pta.C10.externals_included_limit`): the retained half under ANY level limit, for dot-free directory names.
+          The NOT-retained half under a level limit (Props/C10Limit.lean; `L = shiftedLimit o mp`) — conjunct 6
+          (`Pta.C10.nodes_included_limit`): the complete node set with externals included, for ANY limit: a node is (a
+          dotted parent of) a flattened parsed module, or (a dotted parent of) the flattened importee of a RETAINED
+          external import; conjunct 7 (`Pta.C10.externals_not_retained_limit`): if an external exclusion pattern hits a
+          member of the importee's chain that SURVIVES the flattening (`withParents (flattenNode L importee)`), the
+          flattened importee is not a node and no edge of any kind touches it — unless it is (a parent of) a flattened
+          parsed module; conjunct 8 (`Pta.C10.externals_not_retained_uncut`): when the flattening does not cut the
+          importee, "not retained" alone suffices — the statement of conjunct 4 verbatim; conjunct 9
+          (`Pta.C10.externals_not_retained_iff`): in general (the pattern may hit BELOW the cut only) the flattened
+          importee is a node exactly when it is (a parent of) the flattening of a parsed module or of a retained
+          external importee, and if it is not a node no edge touches it (`Pta.C10.edges_between_nodes`).  The naive
+          transfer of conjunct 4 with every name flattened is FALSE of the model:
+          `Pta.C10.not_retained_limit_naive_counterexample` (`import scipy.sparse.linalg` removed by
+          `scipy.sparse.linalg*`, `import scipy.sparse.csgraph` retained; with limit 1 both flatten to `scipy.sparse`,
+          a node carrying the edge) — so "disappear together with their imports" holds under a limit only in the
+          forms of conjuncts 7–9.
       (3) "In every configuration the internal modules and the imports among them are identical: external options and
           external exclusion patterns never add, remove or alter anything internal" — conjunct 1
           (`Pta.C10.internal_invariant_perm`): for option records agreeing on `exclusions` and `levelLimit`, successful
@@ -1207,7 +1495,10 @@ section C10
     Not carried by a theorem (correspondence check only / outside the model):
       * which imported names are "external" in Python's sense (stdlib / site-packages): in the model external = not
         `isInternal · (internalPrefix rootName mp)`.
-      * the not-retained half of (2) under a level limit. -/
+      * under a level limit, an excluded external whose pattern hits only BELOW the cut does not disappear when a
+        retained external (or a parsed module) flattens onto the same name: that is the model's (and the library's)
+        behaviour (`not_retained_limit_naive_counterexample`), stated exactly by conjunct 9, not a gap of the proof.
+      * the retained half under a limit (conjunct 5) for directory names containing dots. -/
 def C10_Statement : Prop :=
   -- 1 `Pta.C10.internal_invariant_perm`
   (∀ (mt : Str → Str → Bool) (base rootName : Str) (mp : List Str) (entries : List Entry)
@@ -1254,11 +1545,68 @@ def C10_Statement : Prop :=
     '.' ∉ rootName → (∀ c ∈ mp, '.' ∉ c) →
     (∀ s ∈ withParents (flattenNode (shiftedLimit o mp) i.importee), s ∈ g.nodes) ∧
     (isInternal i.importer (internalPrefix rootName mp) = true →
-      (flattenNode (shiftedLimit o mp) i.importer, flattenNode (shiftedLimit o mp) i.importee) ∈ g.importPairs))
+      (flattenNode (shiftedLimit o mp) i.importer, flattenNode (shiftedLimit o mp) i.importee) ∈ g.importPairs)) ∧
+  -- 6 `Pta.C10.nodes_included_limit`
+  (∀ (mt : Str → Str → Bool) (base rootName : Str) (mp : List Str) (entries : List Entry)
+    (o : ScanOptions) (g : PGraph Str), o.excludeExternal = false →
+    generateGraph mt base rootName mp entries o = .ok g → ∀ (I : List ImportRec),
+    convertAll (scanParsed mt base rootName mp entries o) (absolutePrefix rootName mp)
+      ((scanParsed mt base rootName mp entries o).allModules.filter fun m => isInternal m (internalPrefix rootName mp)) = .ok I →
+    ∀ (s : Str),
+    s ∈ g.nodes ↔
+      (∃ m ∈ (scanParsed mt base rootName mp entries o).allModules, s ∈ withParents (flattenNode (shiftedLimit o mp) m)) ∨
+      (∃ j ∈ I, isInternal j.importee (internalPrefix rootName mp) = false ∧
+        retained mt o (internalPrefix rootName mp) j = true ∧ isInfix base j.importee = false ∧
+        s ∈ withParents (flattenNode (shiftedLimit o mp) j.importee))) ∧
+  -- 7 `Pta.C10.externals_not_retained_limit`
+  (∀ (mt : Str → Str → Bool) (base rootName : Str) (mp : List Str) (entries : List Entry)
+    (o : ScanOptions) (g : PGraph Str), o.excludeExternal = false →
+    generateGraph mt base rootName mp entries o = .ok g → ∀ (I : List ImportRec),
+    convertAll (scanParsed mt base rootName mp entries o) (absolutePrefix rootName mp)
+      ((scanParsed mt base rootName mp entries o).allModules.filter fun m => isInternal m (internalPrefix rootName mp)) = .ok I →
+    ∀ (i : ImportRec), i ∈ I → isInternal i.importee (internalPrefix rootName mp) = false →
+    retained mt o (internalPrefix rootName mp) i = false →
+    (∃ p ∈ withParents (flattenNode (shiftedLimit o mp) i.importee), isExcluded mt o.externalExclusions p = true) →
+    (∀ m ∈ (scanParsed mt base rootName mp entries o).allModules,
+      flattenNode (shiftedLimit o mp) i.importee ∉ withParents (flattenNode (shiftedLimit o mp) m)) →
+    flattenNode (shiftedLimit o mp) i.importee ∉ g.nodes ∧
+      ∀ x ∈ g.edges, x.src ≠ flattenNode (shiftedLimit o mp) i.importee ∧
+        x.dst ≠ flattenNode (shiftedLimit o mp) i.importee) ∧
+  -- 8 `Pta.C10.externals_not_retained_uncut`
+  (∀ (mt : Str → Str → Bool) (base rootName : Str) (mp : List Str) (entries : List Entry)
+    (o : ScanOptions) (g : PGraph Str), o.excludeExternal = false →
+    generateGraph mt base rootName mp entries o = .ok g → ∀ (I : List ImportRec),
+    convertAll (scanParsed mt base rootName mp entries o) (absolutePrefix rootName mp)
+      ((scanParsed mt base rootName mp entries o).allModules.filter fun m => isInternal m (internalPrefix rootName mp)) = .ok I →
+    ∀ (i : ImportRec), i ∈ I → isInternal i.importee (internalPrefix rootName mp) = false →
+    retained mt o (internalPrefix rootName mp) i = false →
+    flattenNode (shiftedLimit o mp) i.importee = i.importee →
+    (∀ m ∈ (scanParsed mt base rootName mp entries o).allModules,
+      i.importee ∉ withParents (flattenNode (shiftedLimit o mp) m)) →
+    i.importee ∉ g.nodes ∧ ∀ x ∈ g.edges, x.src ≠ i.importee ∧ x.dst ≠ i.importee) ∧
+  -- 9 `Pta.C10.externals_not_retained_iff`
+  (∀ (mt : Str → Str → Bool) (base rootName : Str) (mp : List Str) (entries : List Entry)
+    (o : ScanOptions) (g : PGraph Str), o.excludeExternal = false →
+    generateGraph mt base rootName mp entries o = .ok g → ∀ (I : List ImportRec),
+    convertAll (scanParsed mt base rootName mp entries o) (absolutePrefix rootName mp)
+      ((scanParsed mt base rootName mp entries o).allModules.filter fun m => isInternal m (internalPrefix rootName mp)) = .ok I →
+    ∀ (i : ImportRec), i ∈ I → isInternal i.importee (internalPrefix rootName mp) = false →
+    retained mt o (internalPrefix rootName mp) i = false →
+    (flattenNode (shiftedLimit o mp) i.importee ∈ g.nodes ↔
+      (∃ m ∈ (scanParsed mt base rootName mp entries o).allModules,
+        flattenNode (shiftedLimit o mp) i.importee ∈ withParents (flattenNode (shiftedLimit o mp) m)) ∨
+      (∃ j ∈ I, isInternal j.importee (internalPrefix rootName mp) = false ∧
+        retained mt o (internalPrefix rootName mp) j = true ∧ isInfix base j.importee = false ∧
+        flattenNode (shiftedLimit o mp) i.importee ∈ withParents (flattenNode (shiftedLimit o mp) j.importee))) ∧
+    (flattenNode (shiftedLimit o mp) i.importee ∉ g.nodes →
+      ∀ x ∈ g.edges, x.src ≠ flattenNode (shiftedLimit o mp) i.importee ∧
+        x.dst ≠ flattenNode (shiftedLimit o mp) i.importee))
 
 theorem c10 : C10_Statement :=
   ⟨@Pta.C10.internal_invariant_perm, @Pta.C10.internal_invariant_errors, @Pta.C10.externals_excluded,
-   @Pta.C10.externals_included, @Pta.C10.externals_included_limit⟩
+   @Pta.C10.externals_included, @Pta.C10.externals_included_limit,
+   @Pta.C10.nodes_included_limit, @Pta.C10.externals_not_retained_limit, @Pta.C10.externals_not_retained_uncut,
+   @Pta.C10.externals_not_retained_iff⟩
 
 end C10
 
@@ -1373,6 +1721,7 @@ end C11
 
 /-! ## C12 -/
 section C12
+open PtaSpec
 
 /-- C12 — Rule algebra: duality, negation, decomposition and monotonicity laws.
     English statement (verbatim): "On every architecture: 'A should (not) import B' and 'B should (not) be imported by A'
@@ -1407,16 +1756,40 @@ section C12
           `Pta.C12.alias_mixed_counterexample`; before the repair of F-C12a it failed for related `sub modules of`
           batches: `Pta.C12.alias_parents_regression_witness`.
       (5) "Adding an import to the architecture never turns a passing 'should' rule (with or without 'except') into a
-          failing one nor a failing 'should not' rule into a passing one" — conjuncts 10, 11 (`Pta.C12.monotone_should`,
-          `monotone_should_not`): for any pair `u v` that carries no edge yet, of either kind
-          (`g.hasEdge u v = false`; `addImportEdge g u v` appends the import edge `u → v` and adds no module);
-          conjunct 12 (`Pta.C12.monotone_err`): and the error a rule raises does not change.
+          failing one nor a failing 'should not' rule into a passing one"
+          — adding an import EDGE to a graph value: conjuncts 10, 11 (`Pta.C12.monotone_should`,
+          `monotone_should_not`): for ANY pair `u v` (`addImportEdge g u v` appends the import edge `u → v` and adds no
+          module; the former hypothesis `g.hasEdge u v = false` was unused and has been dropped); conjunct 12
+          (`Pta.C12.monotone_err`): and the error a rule raises does not change; for a finite LIST of added import
+          edges: conjuncts 18, 19, 20 (`Pta.C12.monotone_should_edges`, `monotone_should_not_edges`,
+          `monotone_err_edges`; between any two graphs with the same nodes and hierarchy, the second with more
+          imports: `Pta.C12.monotone_should_le`, `monotone_should_not_le`, `monotone_err_le`).
+          — adding an import STATEMENT to a FILE (Props/C12Scan.lean; scan model `generateGraph`, external libraries
+          excluded — the default —, ANY exclusion patterns, ANY level limit, `treeWFFor` trees, `stmtOK` statements;
+          `addStmtAt entries i k st` inserts `st` at position `k` of the statement list of the `i`-th entry, i.e.
+          anywhere in the file, nested blocks included): conjunct 14 (`Pta.C12.scan_add_statement_nodes`): if both
+          scans succeed the graphs have the same nodes (as sets and up to a permutation) and hierarchy edges, and every
+          import pair of the first is one of the second; conjunct 15 (`Pta.C12.scan_add_statement_monotone`): a
+          passing `should` (plain / `except`, both directions, any subject and object filters, regexes included, any
+          regex matcher) passes on the second, a failing `should_not` fails on the second, and a rule raises error `k`
+          on the one iff on the other; conjunct 16 (`Pta.C12.scan_add_statement_error`): the second scan raises — always
+          a lookup error — exactly when the first raises or the changed entry is a surviving `.py` file and the new
+          statement reaches above the root (`aboveRoot`); success of the second scan implies success of the first
+          (`Pta.C12.scan_add_statement_succeeds`); conjunct 17 (`Pta.C12.scan_more_statements_monotone`): the same for
+          ANY number of statements added to any files (`MoreStmts entries entries'`).
       (6) (table provenance) conjunct 13 (`Pta.C12.generated_flags_agree`, Props/Tables.lean): the ten derived behaviour
           flags translated from behavior_requirement.py on every run equal the model's tables on all 16 flag combinations.
     Not carried by a theorem (correspondence check only / outside the model):
       * "On every architecture" is "on every graph value of the model" — a superset of the graphs the library can build.
-      * adding an import at SCAN level (editing a file) — the monotonicity conjuncts add an edge to the graph value
-        (`addImportEdge`), which adds no module. -/
+      * file-level monotonicity with external libraries INCLUDED (`exclude_external_libraries=False`): outside
+        conjuncts 14–17, and there the property is FALSE for regex subjects — an import of a library adds a MODULE,
+        which a regex subject may match: `Pta.C12.ScanEx.external_modules_not_monotone` (rule "modules matching `.*s`
+        should import r.c" passes, fails after `import os` is added to another file).  For name / `sub modules of`
+        subjects with externals included no theorem is stated.
+      * file-level monotonicity on trees outside `treeWFFor` (`x.py` next to `x/` inside the scanned part): the
+        hypothesis is forced by the proof route; no counterexample to the conclusion is known (example in
+        Props/C12Scan.lean).  `should only` rules are not monotone and not claimed.
+      * source text → statement list (`ast.parse`, the walk is C02): the AST is a parameter of the model. -/
 def C12_Statement : Prop :=
   -- 1 `Pta.C12.duality`
   (∀ (mt : Str → Str → Bool) (g : PGraph Str) (A B : List Filter) (neg : Bool),
@@ -1460,12 +1833,10 @@ def C12_Statement : Prop :=
       = verdictOf mt g (mkRule false false true dir true S S)) ∧
   -- 10 `Pta.C12.monotone_should`
   (∀ (mt : Str → Str → Bool) (g : PGraph Str) (u v : Str) (A B : List Filter) (dir exc : Bool),
-    g.hasEdge u v = false →
     verdictOf mt g (mkRule true false false dir exc A B) = .pass →
     verdictOf mt (addImportEdge g u v) (mkRule true false false dir exc A B) = .pass) ∧
   -- 11 `Pta.C12.monotone_should_not`
   (∀ (mt : Str → Str → Bool) (g : PGraph Str) (u v : Str) (A B : List Filter) (dir exc : Bool),
-    g.hasEdge u v = false →
     verdictOf mt g (mkRule false false true dir exc A B) = .fail →
     verdictOf mt (addImportEdge g u v) (mkRule false false true dir exc A B) = .fail) ∧
   -- 12 `Pta.C12.monotone_err`
@@ -1473,13 +1844,94 @@ def C12_Statement : Prop :=
     verdictOf mt (addImportEdge g u v) (mkRule (!neg) false neg dir exc A B) = .err k ↔
     verdictOf mt g (mkRule (!neg) false neg dir exc A B) = .err k) ∧
   -- 13 `Pta.C12.generated_flags_agree`
-  (∀ s o n x : Bool, Pta.C12.generatedRow s o n x = Pta.C12.modelRow ⟨s, o, n, x⟩)
+  (∀ s o n x : Bool, Pta.C12.generatedRow s o n x = Pta.C12.modelRow ⟨s, o, n, x⟩) ∧
+  -- 14 `Pta.C12.scan_add_statement_nodes`
+  (∀ (mt : Str → Str → Bool) (base root : Str) (mp : List Str) (entries : List Entry) (o : ScanOptions),
+    treeWFFor (isExcluded mt o.exclusions) base mp entries = true → mpOK entries mp = true →
+    compWF root = true →
+    o.excludeExternal = true → o.externalExclusions.isEmpty = true →
+    (∀ e ∈ entries, ∀ st ∈ e.stmts, stmtOK (toSStmt st) = true) →
+    ∀ (i k : Nat) (st : ImportStmt), stmtOK (toSStmt st) = true → ∀ (g g' : PGraph Str),
+    generateGraph mt base root mp entries o = .ok g →
+    generateGraph mt base root mp (addStmtAt entries i k st) o = .ok g' →
+    (∀ s, s ∈ g.nodes ↔ s ∈ g'.nodes) ∧ g.nodes.Perm g'.nodes ∧
+    (∀ p, p ∈ g.hierPairs ↔ p ∈ g'.hierPairs) ∧ (∀ p ∈ g.importPairs, p ∈ g'.importPairs)) ∧
+  -- 15 `Pta.C12.scan_add_statement_monotone`
+  (∀ (mt : Str → Str → Bool) (base root : Str) (mp : List Str) (entries : List Entry) (o : ScanOptions),
+    treeWFFor (isExcluded mt o.exclusions) base mp entries = true → mpOK entries mp = true →
+    compWF root = true →
+    o.excludeExternal = true → o.externalExclusions.isEmpty = true →
+    (∀ e ∈ entries, ∀ st ∈ e.stmts, stmtOK (toSStmt st) = true) →
+    ∀ (i k : Nat) (st : ImportStmt), stmtOK (toSStmt st) = true → ∀ (g g' : PGraph Str),
+    generateGraph mt base root mp entries o = .ok g →
+    generateGraph mt base root mp (addStmtAt entries i k st) o = .ok g' →
+    ∀ (mt' : Str → Str → Bool) (A B : List Filter) (dir exc : Bool),
+    (verdictOf mt' g (mkRule true false false dir exc A B) = .pass →
+      verdictOf mt' g' (mkRule true false false dir exc A B) = .pass) ∧
+    (verdictOf mt' g (mkRule false false true dir exc A B) = .fail →
+      verdictOf mt' g' (mkRule false false true dir exc A B) = .fail) ∧
+    (∀ (neg : Bool) (k : ErrKind), verdictOf mt' g' (mkRule (!neg) false neg dir exc A B) = .err k ↔
+      verdictOf mt' g (mkRule (!neg) false neg dir exc A B) = .err k)) ∧
+  -- 16 `Pta.C12.scan_add_statement_error`
+  (∀ (mt : Str → Str → Bool) (base root : Str) (mp : List Str) (entries : List Entry) (o : ScanOptions),
+    treeWFFor (isExcluded mt o.exclusions) base mp entries = true → mpOK entries mp = true →
+    compWF root = true →
+    o.excludeExternal = true → o.externalExclusions.isEmpty = true →
+    (∀ e ∈ entries, ∀ st ∈ e.stmts, stmtOK (toSStmt st) = true) →
+    ∀ (i k : Nat) (st : ImportStmt), stmtOK (toSStmt st) = true → ∀ (e : Entry), entries[i]? = some e →
+    (generateGraph mt base root mp (addStmtAt entries i k st) o = .error .lookupError ↔
+      generateGraph mt base root mp entries o = .error .lookupError ∨
+      (e.isDir = false ∧
+        survives (toSEntries (isExcluded mt o.exclusions) base entries) mp
+          (toSEntry (isExcluded mt o.exclusions) base e) = true ∧
+        aboveRoot (entryName root (toSEntry (isExcluded mt o.exclusions) base e)) (toSStmt st) = true)) ∧
+    (∀ x, generateGraph mt base root mp (addStmtAt entries i k st) o = .error x → x = .lookupError)) ∧
+  -- 17 `Pta.C12.scan_more_statements_monotone`
+  (∀ (mt : Str → Str → Bool) (base root : Str) (mp : List Str) (entries entries' : List Entry) (o : ScanOptions),
+    MoreStmts entries entries' →
+    treeWFFor (isExcluded mt o.exclusions) base mp entries = true → mpOK entries mp = true →
+    compWF root = true →
+    o.excludeExternal = true → o.externalExclusions.isEmpty = true →
+    (∀ e ∈ entries', ∀ st ∈ e.stmts, stmtOK (toSStmt st) = true) → ∀ (g g' : PGraph Str),
+    generateGraph mt base root mp entries o = .ok g →
+    generateGraph mt base root mp entries' o = .ok g' →
+    ∀ (mt' : Str → Str → Bool) (A B : List Filter) (dir exc : Bool),
+    (verdictOf mt' g (mkRule true false false dir exc A B) = .pass →
+      verdictOf mt' g' (mkRule true false false dir exc A B) = .pass) ∧
+    (verdictOf mt' g (mkRule false false true dir exc A B) = .fail →
+      verdictOf mt' g' (mkRule false false true dir exc A B) = .fail) ∧
+    (∀ (neg : Bool) (k : ErrKind), verdictOf mt' g' (mkRule (!neg) false neg dir exc A B) = .err k ↔
+      verdictOf mt' g (mkRule (!neg) false neg dir exc A B) = .err k)) ∧
+  -- 18 `Pta.C12.monotone_should_edges`
+  (∀ (mt : Str → Str → Bool) (g : PGraph Str) (ps : List (Str × Str)) (A B : List Filter) (dir exc : Bool),
+    verdictOf mt g (mkRule true false false dir exc A B) = .pass →
+    verdictOf mt (addImportEdges g ps) (mkRule true false false dir exc A B) = .pass) ∧
+  -- 19 `Pta.C12.monotone_should_not_edges`
+  (∀ (mt : Str → Str → Bool) (g : PGraph Str) (ps : List (Str × Str)) (A B : List Filter) (dir exc : Bool),
+    verdictOf mt g (mkRule false false true dir exc A B) = .fail →
+    verdictOf mt (addImportEdges g ps) (mkRule false false true dir exc A B) = .fail) ∧
+  -- 20 `Pta.C12.monotone_err_edges`
+  (∀ (mt : Str → Str → Bool) (g : PGraph Str) (ps : List (Str × Str)) (A B : List Filter)
+    (neg dir exc : Bool) (k : ErrKind),
+    verdictOf mt (addImportEdges g ps) (mkRule (!neg) false neg dir exc A B) = .err k ↔
+    verdictOf mt g (mkRule (!neg) false neg dir exc A B) = .err k)
 
 theorem c12 : C12_Statement :=
   ⟨@Pta.C12.duality, @Pta.C12.negation, @Pta.C12.negation_eq, @Pta.C12.decomposition, @Pta.C12.decomposition_except,
    @Pta.C12.decomposition_eq, @Pta.C12.decomposition_except_eq, @Pta.C12.alias_anything,
    @Pta.C12.alias_anything_verdict_api, @Pta.C12.monotone_should, @Pta.C12.monotone_should_not,
-   @Pta.C12.monotone_err, Pta.C12.generated_flags_agree⟩
+   @Pta.C12.monotone_err, Pta.C12.generated_flags_agree,
+   fun mt base root mp entries o hwf hmp hroot hxx hext hst i k st hnew g g' hg hg' =>
+     Pta.C12.scan_add_statement_nodes mt base root mp entries o hwf hmp hroot hxx hext hst i k st hnew g g' hg hg',
+   fun mt base root mp entries o hwf hmp hroot hxx hext hst i k st hnew g g' hg hg' mt' A B dir exc =>
+     Pta.C12.scan_add_statement_monotone mt base root mp entries o hwf hmp hroot hxx hext hst i k st hnew g g' hg hg'
+       mt' A B dir exc,
+   fun mt base root mp entries o hwf hmp hroot hxx hext hst i k st hnew e hi =>
+     Pta.C12.scan_add_statement_error mt base root mp entries o hwf hmp hroot hxx hext hst i k st hnew e hi,
+   fun mt base root mp entries entries' o hms hwf hmp hroot hxx hext hst g g' hg hg' mt' A B dir exc =>
+     Pta.C12.scan_more_statements_monotone mt base root mp entries entries' o hms hwf hmp hroot hxx hext hst g g' hg hg'
+       mt' A B dir exc,
+   @Pta.C12.monotone_should_edges, @Pta.C12.monotone_should_not_edges, @Pta.C12.monotone_err_edges⟩
 
 end C12
 
@@ -1523,19 +1975,47 @@ open PtaSpec
           (`Pta.C13.rule_history_complete`): conversely a complete history is never rejected as a configuration
           problem.  Which histories ARE incomplete / contradictory is the definition of `classifyRule`.
       (5) "mutually exclusive exclusion options; external patterns while externals are excluded; module_path outside
-          root_path" — conjunct 9 (`Pta.C13.options`): `entryOptionsError` is an error exactly for these combinations.
-          "module_path outside root_path" enters as the Boolean `modulePathInsideRoot` supplied by the harness.
+          root_path" — conjunct 9 (`Pta.C13.options`): `entryOptionsError` is an error exactly for these combinations,
+          "module_path outside root_path" being the Boolean `modulePathInsideRoot`.  That Boolean is now computed IN
+          the model: conjunct 20 (`Pta.C04.path_entry_option_error`): with `modulePathInsideRoot` :=
+          "`module_path.relative_to(root_path)` succeeds" (`(entryPaths rootPath modulePath).toBool`; `entryPaths` /
+          `PPath.relativeTo`, PtaModel/Scan.lean: same root and the components of `root_path` a prefix of those of
+          `module_path`) every combination `entryOptionsError` lists makes the path entry point
+          `getEvaluableArchitecture` raise the listed error — for every file system and regex engine; through
+          `Pta.C04.module_object_entry_eq_path_entry` the same holds of the module-object entry point for package
+          module objects.  (With options that pass the check the entry point returns what the scan returns, graph or
+          the scan's error: `Pta.C04.path_entry_eq_generateGraph`.)
       (6) "diagram without file or without start/end tags" — conjunct 10 (`Pta.C13.diagram_without_file`, holds by
           evaluation of `diagramAssert … none …`) and conjunct 11 (`Pta.C13.diagram_without_tags`; the parser-level
           statement is `Pta.C06.no_tags`).
+          "diagram rule … that is incomplete" as a BUILDER HISTORY — `DiagramRule(should_only_rule)` followed by ANY
+          sequence of `from_file` / `with_base_module` / `base_module_included_in_module_names` calls
+          (`List DiagramRuleOp`, `runDiagramOps`, PtaModel/Puml.lean) and `assert_applies`, classified by the
+          specification classifier `classifyDiagram` (PtaSpec/BuilderSpec.lean: was a file ever supplied; which file /
+          base module were supplied LAST — `Pta.C13.diagram_last_file`, `diagram_last_base`): conjunct 13
+          (`Pta.C13.diagram_history_raises`): a history that never calls `from_file` raises ImproperlyConfigured, for
+          every graph, regex engine and mode — never a verdict; conjunct 14 (`Pta.C13.diagram_incomplete_iff`): these
+          are exactly the histories the classifier calls incomplete (through the classifier: conjunct 19,
+          `Pta.C13.diagram_history_incomplete`); conjunct 15 (`Pta.C13.diagram_history_complete`):
+          every other history IS the one-shot check `diagramAssert` on the last file with the last base module
+          (`with_base_module` before `from_file` included; `base_module_included_in_module_names` undoes nothing), so
+          conjuncts 10, 11 and C07 apply; conjunct 16 (`Pta.C13.diagram_history_no_tags`): last file without tags —
+          parsing error; conjuncts 17, 18 (`Pta.C13.diagram_history_conforms_iff`,
+          `diagram_history_base_conforms_iff`): conversely a complete history over a diagram of the documented subset
+          in the domain of C07 never raises and passes exactly when the imports conform.
       (7) (guard provenance) conjunct 12 (`Pta.C13.generated_config_agree`, Props/Tables.lean): the configuration guards
           translated from pytestarch.py / rule.py on every run equal the model's guards on all argument combinations.
     Not carried by a theorem (correspondence check only / outside the model):
       * the Python exception CLASSES (ImproperlyConfigured, KeyError / NetworkXError for lookups, ImpossibleMatch,
         PumlParsingError, ValueError from `Path.relative_to`): `ErrKind` is a naming convention of the harness.
-      * path containment (`module_path` inside `root_path`) itself; "too-deep module names against level-limited
-        architectures" are instances of (1) on the limited graph (no separate theorem).
-      * DiagramRule builder histories other than "no file" (e.g. `with_base_module` before `from_file`). -/
+      * "too-deep module names against level-limited architectures" are instances of (1) on the limited graph (no
+        separate theorem; for layer / diagram rules see `Pta.C09.layer_verdict_not_preserved_deep`,
+        `diagram_verdict_not_preserved_deep`).
+      * of path containment: that `pathlib.Path.relative_to` behaves as the transcription `PPath.relativeTo` (pure
+        POSIX path arithmetic on the two strings: no `resolve()`, `..` kept, no symlinks, no Windows paths) — the
+        containment test itself is in the model now (conjunct 20).
+      * DiagramRule histories: a `DiagramRule` object re-used for a second `assert_applies`, and `from_file` on a path
+        that cannot be read (the file CONTENT is the argument of `fromFile` in the model). -/
 def C13_Statement : Prop :=
   -- 1 `Pta.C13.rule_history_raises`
   (∀ (glob : Str → Str) (mt : Str → Str → Bool) (ops : List RuleOp) (g : PGraph Str),
@@ -1599,13 +2079,54 @@ def C13_Statement : Prop :=
     (∀ s o n : Bool, ∀ d ∈ [none, some true, some false], ∀ ss ∈ Pta.C13.listShapes, ∀ os ∈ Pta.C13.listShapes,
       Generated.configMissing s o n d.isNone
           (match ss with | none => true | some l => l.isEmpty) (match os with | none => true | some l => l.isEmpty) =
-        configMissing { should := s, shouldOnly := o, shouldNot := n, importDir := d, subjects := ss, objects := os }))
+        configMissing { should := s, shouldOnly := o, shouldNot := n, importDir := d, subjects := ss, objects := os })) ∧
+  -- 13 `Pta.C13.diagram_history_raises`
+  (∀ (only : Bool) (ops : List DiagramRuleOp) (mt : Str → Str → Bool) (g : PGraph Str),
+    (∀ c, DiagramRuleOp.fromFile c ∉ ops) → runDiagramOps only ops mt g = .err .improperlyConfigured) ∧
+  -- 14 `Pta.C13.diagram_incomplete_iff`
+  (∀ (ops : List DiagramRuleOp),
+    classifyDiagram (ops.map toDCall) = .incomplete ↔ ∀ c, DiagramRuleOp.fromFile c ∉ ops) ∧
+  -- 15 `Pta.C13.diagram_history_complete`
+  (∀ (only : Bool) (ops : List DiagramRuleOp) (mt : Str → Str → Bool) (g : PGraph Str)
+    (f : Str) (b : Option Str), classifyDiagram (ops.map toDCall) = .complete f b →
+    runDiagramOps only ops mt g = diagramAssert mt (some f) b only g) ∧
+  -- 16 `Pta.C13.diagram_history_no_tags`
+  (∀ (only : Bool) (ops : List DiagramRuleOp) (mt : Str → Str → Bool) (g : PGraph Str)
+    (f : Str) (b : Option Str), classifyDiagram (ops.map toDCall) = .complete f b →
+    pumlBody (pyStrip f) = .error .pumlParsingError →
+    runDiagramOps only ops mt g = .err .pumlParsingError) ∧
+  -- 17 `Pta.C13.diagram_history_conforms_iff`
+  (∀ (only : Bool) (ops : List DiagramRuleOp) (mt : Str → Str → Bool) (a : Arch)
+    (noise1 noise2 : Str) (d : List DLine), diagramWF d = true → isInfix "@enduml".toList noise2 = false →
+    classifyDiagram (ops.map toDCall) = .complete (diagramText noise1 d noise2) none →
+    diagramDomain a (specDiagram d) = true →
+    (runDiagramOps only ops mt (archGraph a) = .pass ↔ conforms a (specDiagram d) only = true) ∧
+    (∀ k, runDiagramOps only ops mt (archGraph a) ≠ .err k)) ∧
+  -- 18 `Pta.C13.diagram_history_base_conforms_iff`
+  (∀ (only : Bool) (ops : List DiagramRuleOp) (mt : Str → Str → Bool) (a : Arch)
+    (noise1 noise2 : Str) (d : List DLine), diagramWF d = true → isInfix "@enduml".toList noise2 = false →
+    ∀ (q : Name), q ≠ [] →
+    classifyDiagram (ops.map toDCall) = .complete (diagramText noise1 d noise2) (some (render q)) →
+    diagramDomain a (prefixDiagram q (specDiagram d)) = true →
+    (runDiagramOps only ops mt (archGraph a) = .pass ↔ conforms a (prefixDiagram q (specDiagram d)) only = true) ∧
+    (∀ k, runDiagramOps only ops mt (archGraph a) ≠ .err k)) ∧
+  -- 19 `Pta.C13.diagram_history_incomplete`
+  (∀ (only : Bool) (ops : List DiagramRuleOp) (mt : Str → Str → Bool) (g : PGraph Str),
+    classifyDiagram (ops.map toDCall) = .incomplete → runDiagramOps only ops mt g = .err .improperlyConfigured) ∧
+  -- 20 `Pta.C04.path_entry_option_error`
+  (∀ (mt : Str → Str → Bool) (fs : Str → List Entry) (rootPath modulePath : Str) (a : EntryArgs) (k : ErrKind),
+    entryOptionsError (a.flags (entryPaths rootPath modulePath).toBool) = some k →
+    getEvaluableArchitecture mt fs rootPath modulePath a = .error (.kind k))
 
 theorem c13 : C13_Statement :=
   ⟨@Pta.C13.rule_history_raises, @Pta.C13.rule_history_error_at, @Pta.C13.rule_history_complete,
    @Pta.C13.unknown_name, @Pta.C13.no_match_wins_over_unknown_name, @Pta.C13.anything_unknown_name,
    @Pta.C13.layer_anything_unknown_name, @Pta.C13.layer_rule_history, @Pta.C13.options,
-   @Pta.C13.diagram_without_file, @Pta.C13.diagram_without_tags, Pta.C13.generated_config_agree⟩
+   @Pta.C13.diagram_without_file, @Pta.C13.diagram_without_tags, Pta.C13.generated_config_agree,
+   @Pta.C13.diagram_history_raises, @Pta.C13.diagram_incomplete_iff, @Pta.C13.diagram_history_complete,
+   @Pta.C13.diagram_history_no_tags, @Pta.C13.diagram_history_conforms_iff,
+   @Pta.C13.diagram_history_base_conforms_iff, @Pta.C13.diagram_history_incomplete,
+   @Pta.C04.path_entry_option_error⟩
 
 end C13
 
@@ -1638,6 +2159,15 @@ open PtaSpec
           EVERY rule with well-formed identifiers (`ruleWF r`; related names, batches, `anything`, absent names) on every
           well-formed architecture; conjunct 6 (`Pta.C14.model_report_ren`): the whole outcome is the original one with
           every module name in every report line renamed (same lines, same order).
+          — the message TEXT (Props/C14Text.lean): conjunct 13 (`Pta.C14.text_ren_items`): the outcome WITH text on the
+          renamed inputs is the rendering of the renamed report items (pass stays pass, an error stays the same
+          error), no hypothesis about `"`; conjunct 14 (`Pta.C14.text_ren`): if moreover no path component contains
+          `"` before or after the renaming (`archNoQuote a`, `ruleNoQuote r`, `QuoteFree ρ`; Python module names never
+          do), the lines of the renamed message are, as a multiset (`List.Perm`), the renamed lines of the original
+          message (`renLine ρ`, Bridge/RenameText.lean: parse the line, rename the names, render again), and literally
+          those lines sorted again (`sortStr`).  Literal equality of the line LISTS is false, because sorting does not
+          commute with renaming: `Pta.C14.text_ren_order_changes` (line order), `text_ren_object_order_changes` (order
+          of the objects inside a `does not import` line).
       (3) "layer attribution" (layer rules) — conjunct 8 (`Pta.C14.layer_report_ren`): the outcome of a layer rule on the
           renamed architecture with the renamed layers (`layersWF ls`: well-formed listed names; related modules,
           duplicates, absent modules, undefined layers all allowed) is the original outcome with module names renamed;
@@ -1649,8 +2179,13 @@ open PtaSpec
           alias text kept, remaining components renamed (hypotheses of C17: well-formed names, distinct aliased
           modules that exist).
     Not carried by a theorem (correspondence check only / outside the model):
-      * the message TEXT under renaming: the theorems rename report ITEMS; the text is their rendering (C03
-        `assert_text_eq`, `line_of_item`), whose line ORDER (sorted) may change under renaming — not stated.
+      * the message TEXT under renamings that INTRODUCE `"` into a path component (or for names that contain `"`):
+        conjunct 14 needs quote-free names, and the hypothesis cannot be dropped —
+        `Pta.C14.text_ren_needs_quoteFree` (a good renaming under which two different lines are rendered as the same
+        string, and `sorted(set(...))` keeps one: the message shrinks from two lines to one).  Conjunct 13 (items,
+        rendered) holds without it.
+      * the message text under renaming for LAYER rules and DIAGRAM rules: conjuncts 8–10 rename report items / tags;
+        their texts (`assertAppliesLayerText`, `applyAllText`) are not related by a theorem.
       * regex specifications (excluded by the property's quantifier; `mt` is not renamed).
       * scan-level invariance (renaming directories on disk) — only `isInternal_ren` and C04's naming theorems. -/
 def C14_Statement : Prop :=
@@ -1714,12 +2249,29 @@ def C14_Statement : Prop :=
       .ok (nodes.map fun n => (render n, labelWith id al n))) ∧
   -- 12 `Pta.C14.isInternal_ren`
   (∀ (ρ : Comp → Comp), GoodRen ρ → ∀ (n p : Name), nameWF n = true → nameWF p = true →
-    isInternal (render (renName ρ n)) (render (renName ρ p)) = isInternal (render n) (render p))
+    isInternal (render (renName ρ n)) (render (renName ρ p)) = isInternal (render n) (render p)) ∧
+  -- 13 `Pta.C14.text_ren_items`
+  (∀ (mt : Str → Str → Bool) (ρ : Comp → Comp), GoodRen ρ → ∀ (a : Arch), a.wf = true →
+    ∀ (r : RuleSpec), ruleWF r = true →
+    (assertAppliesText mt (compile (renRule ρ r)) (archGraph (renArch ρ a))).2 =
+      ((assertApplies mt (compile r) (archGraph a)).2.mapId (renDotted ρ)).toText ∧
+    (assertAppliesText mt (compile r) (archGraph a)).2 = (assertApplies mt (compile r) (archGraph a)).2.toText) ∧
+  -- 14 `Pta.C14.text_ren`
+  (∀ (mt : Str → Str → Bool) (ρ : Comp → Comp), GoodRen ρ → QuoteFree ρ → ∀ (a : Arch),
+    a.wf = true → archNoQuote a = true → ∀ (r : RuleSpec), ruleWF r = true → ruleNoQuote r = true →
+    ((assertAppliesText mt (compile r) (archGraph a)).2 = .pass →
+      (assertAppliesText mt (compile (renRule ρ r)) (archGraph (renArch ρ a))).2 = .pass) ∧
+    (∀ k, (assertAppliesText mt (compile r) (archGraph a)).2 = .err k →
+      (assertAppliesText mt (compile (renRule ρ r)) (archGraph (renArch ρ a))).2 = .err k) ∧
+    (∀ lines, (assertAppliesText mt (compile r) (archGraph a)).2 = .fail lines →
+      ∃ lines', (assertAppliesText mt (compile (renRule ρ r)) (archGraph (renArch ρ a))).2 = .fail lines' ∧
+        lines'.Perm (lines.map (renLine ρ)) ∧ lines' = sortStr (lines.map (renLine ρ))))
 
 theorem c14 : C14_Statement :=
   ⟨@Pta.C14.raw_test_is_prefix, @Pta.C14.desc_ren, @Pta.C14.verdict_ren, @Pta.C14.violating_ren,
    @Pta.C14.model_verdict_ren_all, @Pta.C14.model_report_ren, @Pta.C14.layerOf_ren, @Pta.C14.layer_report_ren,
-   @Pta.C14.layer_verdict_ren_cls, @Pta.C14.diagram_spec_ren, @Pta.C14.labels_ren, @Pta.C14.isInternal_ren⟩
+   @Pta.C14.layer_verdict_ren_cls, @Pta.C14.diagram_spec_ren, @Pta.C14.labels_ren, @Pta.C14.isInternal_ren,
+   @Pta.C14.text_ren_items, @Pta.C14.text_ren⟩
 
 end C14
 
@@ -1768,6 +2320,20 @@ open PtaSpec
           some rule raises, every order raises the error of one of the raising rules (the KIND may depend on the
           order: `Pta.C15.applyAll_error_kind_counterexample`); conjunct 14 (`Pta.C15.diagram_text_perm`): permuting the
           lines of a diagram file gives the parsing error for both orders or the same module set and dependency relation.
+          The diagram MESSAGE (text-valued model `diagramAssertText`, Props/C15Text.lean) — conjunct 15
+          (`Pta.C15.diagram_rules_text_perm`): two parse results with the same module SET and dependency RELATION
+          (`SameDiagram`; `Pta.C07.DepsOK`: unique keys, non-empty value lists — the parser guarantees them), any
+          graph, both modes: one check raises `k` iff the other raises `k`, and `k` can only be the lookup error (so
+          the order dependence of the error KIND cannot show for a diagram: `Pta.C15.generated_rules_raise_lookup_only`);
+          same class; the per-rule messages and the message lines are the same MULTISETS (`List.Perm`); conjunct 16
+          (`Pta.C15.diagram_message_lines_perm`): the same for two FILES whose line lists are permutations of one another
+          (raw lines without newline and `@`), any base module, any graph; conjunct 17
+          (`Pta.C15.diagram_message_text_lines_perm`): if both checks fail with texts `t`, `t'` and no message line
+          contains a newline, `splitLines t'` is a permutation of `splitLines t`.  This is the strongest true
+          statement: literal equality of the two texts is FALSE (`Pta.C15.diagram_message_order_counterexample`: the
+          per-rule blocks follow the order of the arrow lines); the dictionary order of the objects inside one
+          `does not import` item (C07, `report_lists_objects_in_dict_order`) does NOT reach the text, which sorts them
+          (`Pta.C15.diagram_message_objects_sorted`).
     Not carried by a theorem (correspondence check only / outside the model):
       * "leaves the evaluable architecture unchanged" and "do not depend on which rules were evaluated before it": the
         model is a pure function of (rule object, graph); the graph is not threaded through evaluations, so there is
@@ -1776,7 +2342,10 @@ open PtaSpec
       * "the interpreter's hash seed" (set / dict iteration order): outside the model; the theorems above show the
         outcome depends on lists only as sets, which is the reason the seed cannot matter, but the seed itself is only
         exercised by the 8-seed correspondence run.
-      * the diagram message for permuted diagram LINES: only up to `sameItems` (C07). -/
+      * literal equality of the diagram message TEXT for permuted diagram lines: false
+        (`diagram_message_order_counterexample`); carried as equality of the multisets of blocks / lines (conjuncts
+        15–17), of the class and of the error.  For diagrams outside the raw-line hypotheses of conjunct 16 (a line
+        containing `@` or a newline) nothing is stated. -/
 def C15_Statement : Prop :=
   -- 1 `Pta.C15.report_reapply`
   (∀ (mt : Str → Str → Bool) (s : RuleState) (g g' : PGraph Str),
@@ -1833,13 +2402,42 @@ def C15_Statement : Prop :=
   -- 14 `Pta.C15.diagram_text_perm`
   (∀ (noise1 noise2 : Str) (lines lines' : List Str), lines.Perm lines' →
     (∀ l ∈ lines, '\n' ∉ l ∧ '@' ∉ l) → isInfix "@enduml".toList noise2 = false →
-    SameDiagram (pumlParse (linesText noise1 lines noise2)) (pumlParse (linesText noise1 lines' noise2)))
+    SameDiagram (pumlParse (linesText noise1 lines noise2)) (pumlParse (linesText noise1 lines' noise2))) ∧
+  -- 15 `Pta.C15.diagram_rules_text_perm`
+  (∀ (mt : Str → Str → Bool) (g : PGraph Str) (so : Bool) (p q : Parsed'),
+    SameDiagram (.ok p) (.ok q) → Pta.C07.DepsOK p → Pta.C07.DepsOK q →
+    (∀ k, applyAllText mt g (diagramRules so p) = .err k ↔ applyAllText mt g (diagramRules so q) = .err k) ∧
+    (∀ k, applyAllText mt g (diagramRules so p) = .err k → k = .lookupError) ∧
+    (applyAllText mt g (diagramRules so p)).cls = (applyAllText mt g (diagramRules so q)).cls ∧
+    (aggMessages mt g (diagramRules so p)).Perm (aggMessages mt g (diagramRules so q)) ∧
+    (aggLines mt g (diagramRules so p)).Perm (aggLines mt g (diagramRules so q))) ∧
+  -- 16 `Pta.C15.diagram_message_lines_perm`
+  (∀ (mt : Str → Str → Bool) (g : PGraph Str) (so : Bool) (base : Option Str)
+    (noise1 noise2 : Str) (lines lines' : List Str), lines.Perm lines' →
+    (∀ l ∈ lines, '\n' ∉ l ∧ '@' ∉ l) → isInfix "@enduml".toList noise2 = false →
+    (∀ k, diagramAssertText mt (some (linesText noise1 lines noise2)) base so g = .err k ↔
+      diagramAssertText mt (some (linesText noise1 lines' noise2)) base so g = .err k) ∧
+    (diagramAssertText mt (some (linesText noise1 lines noise2)) base so g).cls =
+      (diagramAssertText mt (some (linesText noise1 lines' noise2)) base so g).cls ∧
+    (aggMessages mt g (diagramRulesOf (linesText noise1 lines noise2) base so)).Perm
+      (aggMessages mt g (diagramRulesOf (linesText noise1 lines' noise2) base so)) ∧
+    (aggLines mt g (diagramRulesOf (linesText noise1 lines noise2) base so)).Perm
+      (aggLines mt g (diagramRulesOf (linesText noise1 lines' noise2) base so))) ∧
+  -- 17 `Pta.C15.diagram_message_text_lines_perm`
+  (∀ (mt : Str → Str → Bool) (g : PGraph Str) (so : Bool) (base : Option Str)
+    (noise1 noise2 : Str) (lines lines' : List Str), lines.Perm lines' →
+    (∀ l ∈ lines, '\n' ∉ l ∧ '@' ∉ l) → isInfix "@enduml".toList noise2 = false → ∀ (t t' : Str),
+    diagramAssertText mt (some (linesText noise1 lines noise2)) base so g = .fail t →
+    diagramAssertText mt (some (linesText noise1 lines' noise2)) base so g = .fail t' →
+    (∀ l ∈ aggLines mt g (diagramRulesOf (linesText noise1 lines noise2) base so), '\n' ∉ l) →
+    (splitLines t).Perm (splitLines t'))
 
 theorem c15 : C15_Statement :=
   ⟨@Pta.C15.report_reapply, @Pta.C15.report_congr, @Pta.C15.report_perm_anything,
    @Pta.C15.report_perm_modules_imports, @Pta.C15.scan_graph_perm, @Pta.C15.scan_report_perm, @Pta.C15.perm_patterns,
    @Pta.C15.report_layer_congr, @Pta.C15.scan_report_layer_perm, @Pta.C15.run_report_perm,
-   @Pta.C15.run_layer_report_perm, @Pta.C15.applyAll_perm, @Pta.C15.applyAll_perm_err, @Pta.C15.diagram_text_perm⟩
+   @Pta.C15.run_layer_report_perm, @Pta.C15.applyAll_perm, @Pta.C15.applyAll_perm_err, @Pta.C15.diagram_text_perm,
+   @Pta.C15.diagram_rules_text_perm, @Pta.C15.diagram_message_lines_perm, @Pta.C15.diagram_message_text_lines_perm⟩
 
 end C15
 
@@ -1878,10 +2476,31 @@ open PtaSpec
       (4) "a layer rule needs an architecture first and exactly one subject layer" — conjunct 6
           (`Pta.C16.layer_rule_guards`): a LayerRule history the automaton `classifyLayerRule` rejects at call `i` raises
           ImproperlyConfigured at exactly call `i` (shared with C13).
+      (5) "no matter whether it is passed as a string or inside a list" — the argument FORM is part of the model now
+          (`LArchCall`, `ModArg` = `.str s` | `.list l`, `runLArchCalls`; PtaModel/Layer.lean: `ModArg.toList` transcribes
+          `modules_list = modules if isinstance(modules, list) else [modules]`; the specification call of either form
+          is `LCall.modules` with the names supplied, `callToLCall`, Bridge/BuilderCalls.lean).  Conjunct 7
+          (`Pta.C16.string_form_eq_list_form`): two histories that become equal when every `containing_modules("m")`
+          is written `containing_modules(["m"])` (`LArchCall.listForm`) — i.e. that differ, at any number of positions,
+          in the FORM of that argument only — have the same result: the same accepted architecture or the same error
+          at the same call (`Pta.C16.calls_eq_list_form_run`: the run is the list-form run, so conjuncts 1–5 apply;
+          `string_form_eq_list_form_all`, `string_form_eq_list_form_one`).  Conjuncts 8, 9
+          (`Pta.C16.larch_calls_refine`, `larch_calls_invariant`): refinement of the specification automaton and the
+          invariant (unique layer names, at most one pending layer, no module identifier in two layers) for histories
+          with BOTH forms.  Conjunct 10 (`Pta.C16.module_in_one_layer`): a module passed to `containing_modules`
+          twice, in whatever forms: EVERY history `pre, containing_modules(y), mid, containing_modules(x), rest` is
+          rejected with a configuration error, at the second of the two calls when the calls before it were accepted
+          and earlier otherwise; conjunct 11 (`Pta.C16.string_form_one_layer`): after an accepted history in which `m`
+          was passed as a STRING, passing `m` again — as a string or inside a list, to the same or another layer — is
+          rejected AT that call (`Pta.C16.string_form_never_twice`).  The repaired defect F-C16 (fix 1df0d8a;
+          `module_set = set(modules)` is, for a `str`, the set of its CHARACTERS) on the model of the pre-repair code
+          `runLArchCharset`: `Pta.C16.charset_counterexample_accepts` (`layer A, "mod", layer B, "mod"` was ACCEPTED: two
+          layers own `mod`) and `Pta.C16.charset_counterexample_rejects` (`layer A, ["m"], layer B, "mod"` was REJECTED
+          although no module is shared).
     Not carried by a theorem (correspondence check only / outside the model):
-      * "no matter whether it is passed as a string or inside a list": in the model `containingModules` takes a LIST; a
-        `str` argument is encoded by the harness as the one-element list (PtaModel/Layer.lean), so the string form of
-        `containing_modules` (the defect behind this property) is NOT in the model — correspondence check only.
+      * argument forms other than `str` and `list[str]` (a tuple, a set, a generator: `isinstance(modules, list)` is
+        false for them and the whole object becomes ONE list element) are not values of `ModArg`.
+      * the string form of `have_modules_with_names_matching` (a regex is a single string in the API; no list form).
       * `str(architecture)` / `architecture[layer]` as observation of accepted definitions. -/
 def C16_Statement : Prop :=
   -- 1 `Pta.C16.larch_refines`
@@ -1913,11 +2532,38 @@ def C16_Statement : Prop :=
   -- 6 `Pta.C16.layer_rule_guards`
   (∀ (mt : Str → Str → Bool) (a : LArch) (ops : List LayerRuleOp) (g : PGraph Str) (i : Nat),
     (∀ op ∈ ops, ∀ a', op = LayerRuleOp.basedOn a' → a' = a) →
-    classifyLayerRule (ops.map (toLRCall a)) = .rejectedAt i → runLayerRuleOps mt ops g = (.err .improperlyConfigured, i))
+    classifyLayerRule (ops.map (toLRCall a)) = .rejectedAt i → runLayerRuleOps mt ops g = (.err .improperlyConfigured, i)) ∧
+  -- 7 `Pta.C16.string_form_eq_list_form`
+  (∀ (cs cs' : List LArchCall),
+    cs.map LArchCall.listForm = cs'.map LArchCall.listForm → runLArchCalls cs = runLArchCalls cs') ∧
+  -- 8 `Pta.C16.larch_calls_refine`
+  (∀ (cs : List LArchCall),
+    match classifyLArch (cs.map callToLCall) with
+    | .accepted t => ∃ a, runLArchCalls cs = .ok a ∧
+        a.idsPerLayer = t.closed ++ (match t.opened with | some n => [(n, [])] | none => [])
+    | .rejectedAt i => runLArchCalls cs = .error (.improperlyConfigured, i)
+    | .unspecified => True) ∧
+  -- 9 `Pta.C16.larch_calls_invariant`
+  (∀ (cs : List LArchCall) (a : LArch), runLArchCalls cs = .ok a →
+    (a.map (·.1)).Nodup ∧ a.pending.length ≤ 1 ∧
+    ∀ l₁ ∈ a, ∀ l₂ ∈ a, ∀ f₁ ∈ l₁.2, ∀ f₂ ∈ l₂.2, f₁.isRegex = false → f₂.isRegex = false → f₁.id = f₂.id → l₁.1 = l₂.1) ∧
+  -- 10 `Pta.C16.module_in_one_layer`
+  (∀ (pre mid rest : List LArchCall) (y x : ModArg) (m : Str),
+    m ∈ y.toList → m ∈ x.toList →
+    ∃ i, i ≤ pre.length + 1 + mid.length ∧
+      runLArchCalls (pre ++ .containing y :: mid ++ .containing x :: rest) = .error (.improperlyConfigured, i) ∧
+      ((∃ a, runLArchCalls (pre ++ .containing y :: mid) = .ok a) → i = pre.length + 1 + mid.length)) ∧
+  -- 11 `Pta.C16.string_form_one_layer`
+  (∀ (pre mid rest : List LArchCall) (m : Str) (x : ModArg), m ∈ x.toList → ∀ (a : LArch),
+    runLArchCalls (pre ++ .containing (.str m) :: mid) = .ok a →
+    runLArchCalls (pre ++ .containing (.str m) :: mid ++ .containing x :: rest)
+      = .error (.improperlyConfigured, pre.length + 1 + mid.length))
 
 theorem c16 : C16_Statement :=
   ⟨@Pta.C16.larch_refines, @Pta.C16.larch_invariant, @Pta.C16.empty_module_list_keeps_layer_open,
-   @Pta.C16.empty_module_list_is_noop, @Pta.C16.empty_module_list_without_layer, @Pta.C16.layer_rule_guards⟩
+   @Pta.C16.empty_module_list_is_noop, @Pta.C16.empty_module_list_without_layer, @Pta.C16.layer_rule_guards,
+   @Pta.C16.string_form_eq_list_form, @Pta.C16.larch_calls_refine, @Pta.C16.larch_calls_invariant,
+   @Pta.C16.module_in_one_layer, @Pta.C16.string_form_one_layer⟩
 
 end C16
 
@@ -1995,7 +2641,9 @@ end Pta.Headline
 
 /-
   Axiom check (run with a scratch file `import PtaProofs.Props.Headline` + the 17 commands below; result recorded
-  here, NOT live commands).  Every headline theorem depends on exactly [propext, Classical.choice, Quot.sound]:
+  here, NOT live commands; re-run after the conjuncts of Props/C07Text, C09Layer, C10Limit, C12Scan, C14Text, C15Text,
+  E2EWide, TablesWiring and the appended sections of Props/C04, C08, C13, C16 were added).  Every headline theorem
+  depends on exactly [propext, Classical.choice, Quot.sound]:
 
   #print axioms Pta.Headline.c01   -- 'Pta.Headline.c01' depends on axioms: [propext, Classical.choice, Quot.sound]
   #print axioms Pta.Headline.c02   -- 'Pta.Headline.c02' depends on axioms: [propext, Classical.choice, Quot.sound]
